@@ -328,6 +328,14 @@ def dir_complete(bound, lst):
 RMH = "self.hash_lists[{g}].process_info.root_media_hash"
 
 
+def dir_sound(bound, lst, rootbound=None):
+    """every element of lst is an entry of a directory record of the path in a generation < bound (or a root hash entry of a generation < rootbound)"""
+    r = RMH.format(g="g")
+    alt = f" or any({r} is not None and {lst}[a] in {r}.hash_entries for g in range({rootbound}))" if rootbound is not None else ""
+    return (f"all(any({DMH('g')} is not None and {DMH('g')}.is_directory and {lst}[a] in {DMH('g')}.hash_entries for g in range({bound})){alt}"
+            f" for a in range(len({lst})))")
+
+
 def root_complete(bound, lst):
     r = RMH.format(g="g")
     return f"all({r} is None or all(e in {lst} for e in {r}.hash_entries) for g in range({bound}))"
@@ -343,16 +351,21 @@ contract(
     ensures=[
         dir_complete("len(self.hash_lists)", "result"),
         "relative_path != '.' or " + root_complete("len(self.hash_lists)", "result"),
+        # soundness: nothing else is returned
+        "relative_path == '.' or " + dir_sound("len(self.hash_lists)", "result"),
+        "relative_path != '.' or " + dir_sound("len(self.hash_lists)", "result", "len(self.hash_lists)"),
         # file records contribute nothing; with no directory record and no root hash anywhere the result is empty
         f"not (all({DMH('g')} is None or not {DMH('g')}.is_directory for g in range(len(self.hash_lists)))"
         f" and (relative_path != '.' or all({RMH.format(g='g')} is None for g in range(len(self.hash_lists))))) or len(result) == 0",
     ],
     loops={
         0: Loop(invariant=[
+            dir_sound("_i", "directory_hash_entries"),
             dir_complete("_i", "directory_hash_entries"),
             f"not all({DMH('g')} is None or not {DMH('g')}.is_directory for g in range(_i)) or len(directory_hash_entries) == 0",
         ]),
         1: Loop(invariant=[
+            dir_sound("_i0", "directory_hash_entries"),
             dir_complete("_i0", "directory_hash_entries"),
             f"not all({DMH('g')} is None or not {DMH('g')}.is_directory for g in range(_i0)) or len(directory_hash_entries) == 0",
             "media_hash == self.hash_lists[_i0].media_hashes_path_map.get(relative_path)",
@@ -360,12 +373,14 @@ contract(
             "hash_list == self.hash_lists[_i0]",
         ]),
         2: Loop(invariant=[
+            dir_sound("len(self.hash_lists)", "directory_hash_entries", "_i"),
             dir_complete("len(self.hash_lists)", "directory_hash_entries"),
             root_complete("_i", "directory_hash_entries"),
             f"not (all({DMH('g')} is None or not {DMH('g')}.is_directory for g in range(len(self.hash_lists)))"
             f" and all({RMH.format(g='g')} is None for g in range(_i))) or len(directory_hash_entries) == 0",
         ]),
         3: Loop(invariant=[
+            dir_sound("len(self.hash_lists)", "directory_hash_entries", "_i2"),
             dir_complete("len(self.hash_lists)", "directory_hash_entries"),
             root_complete("_i2", "directory_hash_entries"),
             f"not (all({DMH('g')} is None or not {DMH('g')}.is_directory for g in range(len(self.hash_lists)))"
